@@ -1284,6 +1284,64 @@ def r_val_auth(E):
     return res
 
 
+def _ctor_events(pm, cn, seen=()):
+    """the `self.<attr> = …` assignments of the constructor chain of cn in execution order (super().__init__ expanded where
+    it is called): ('link', attr, owner class, line) for a link wrapper / list of links, ('input', …) for a value that
+    comes from a constructor parameter"""
+    owner, f = pm.find_method(cn, "__init__")
+    if f is None or owner in seen:
+        return []
+    ev = []
+    params = {a.arg for a in f.args.args[1:]} | {a.arg for a in f.args.kwonlyargs}
+    for st in f.body:
+        sup = [c for c in ast.walk(st) if isinstance(c, ast.Call) and isinstance(c.func, ast.Attribute) and c.func.attr == "__init__"
+               and isinstance(c.func.value, ast.Call) and norm(c.func.value.func) == "super"]
+        if sup:
+            nxt = next((k for k in pm.mro(owner)[1:] if k in pm.classes and any(
+                isinstance(x, ast.FunctionDef) and x.name == "__init__" for x in pm.classes[k].node.body)), None)
+            if nxt:
+                ev += _ctor_events(pm, nxt, seen + (owner,))
+            continue
+        for a in [x for x in ast.walk(st) if isinstance(x, ast.Assign)]:
+            for t in a.targets:
+                if isinstance(t, ast.Attribute) and norm(t.value) == "self":
+                    v = norm(a.value)
+                    if v.startswith(("ContextualModelingObjectAttribute(", "ListLinkedToModelingObj(")):
+                        ev.append(("link", t.attr, owner, a.lineno))
+                    elif any(isinstance(x, ast.Name) and x.id in params for x in ast.walk(a.value)):
+                        ev.append(("input", t.attr, owner, a.lineno))
+    return ev
+
+
+@rule("R-CTORLINK")
+def r_ctorlink(E):
+    pm = E.pm
+    res = RuleResult("R-CTORLINK", "a constructor assigns the inputs that validation can refuse before it links the object "
+                                   "under construction to other objects of the model: a link wrapper registers the new object "
+                                   "with the object it points to as soon as it is assigned, so an input refused afterwards "
+                                   "leaves the constructor with an exception and the model with a half-built object in its "
+                                   "reverse links (the service and its server list a job that does not exist)")
+    for cn in sorted(pm.ALL):
+        ev = _ctor_events(pm, cn)
+        if not ev:
+            continue
+        res.instances += 1
+        first = next((i for i, e in enumerate(ev) if e[0] == "link"), None)
+        if first is None:
+            continue
+        for kind, attr, owner, line in ev[first + 1:]:
+            if kind != "input":
+                continue
+            res.findings.append(Finding(
+                "R-CTORLINK", f"{cn}.{attr} assigned after the link {ev[first][1]}",
+                f"{cn}.__init__ assigns the input `{attr}` (in {owner}.__init__) after the link `{ev[first][1]}` has been set "
+                f"(in {ev[first][2]}.__init__): when `{attr}` is refused — wrong dimension, negative, outside its allowed list — "
+                f"the half-built {cn} is already registered with the object `{ev[first][1]}` points to, and stays in its "
+                f"reverse links after the exception", pm.path_of(owner), line, f"{owner}.__init__"))
+    res.floor = 15
+    return res
+
+
 @rule("R-DEADLINK")
 def r_deadlink(E):
     pm = E.pm
